@@ -39,6 +39,26 @@ PATCHES = {
     # NAT fields: the record is then *sent to* another address, it is still *matched by* the address it sends from
     "nat_on": {"nat_enabled": True, "address_nat": ("10.0.0.2", 40000)},
 }
+DEFAULT_MATCH_ATTRS = (("callsign", "x"), ("dmr_id", 7), ("callsign", ""))
+DEFAULT_IPS = ("10.0.0.1", "10.0.0.2", "10.9.9.9")
+
+# other spellings of an address (the storage matches the address tuple as it is given) and the extreme values of the built-in fields
+M4 = ("::ffff:10.0.0.1", 50000)  # IPv4-mapped form of A's host, as a dual-stack socket reports it
+V6 = ("2001:db8::1", 50000)
+V6B = ("2001:db8:b::1", 50000)  # same last group as V6
+E0 = ("", 0)
+PATCHES_EDGE = {
+    "none": {},
+    "dmr_max": {"dmr_id": 0xFFFFFF},
+    "dmr_zero": {"dmr_id": 0},
+    "callsign_empty": {"callsign": ""},
+    "serial_long": {"serial": "S" * 40},
+    "snmp_off": {"snmp_enabled": False},
+    "out_none_port0": {"address_out": ("", 0)},
+}
+EDGE_MATCH_ATTRS = (("dmr_id", 0xFFFFFF), ("dmr_id", 0), ("callsign", ""), ("serial", "S" * 40), ("snmp_enabled", False))
+EDGE_IPS = ("10.0.0.1", "::ffff:10.0.0.1", "2001:db8::1", "2001:db8:b::1", "", "1")
+
 PATCHES_ADDR = {
     "to_B": {"address_in": B},
     "to_D": {"address_in": D},
@@ -92,8 +112,8 @@ class StorageSystem(explore.System):
                 if key == "custom":
                     evs.append(("attr_set", k, key, 2))
                 evs.append(("delete_attr", k, key))
-        evs += [("match_attr", "callsign", "x"), ("match_attr", "dmr_id", 7), ("match_attr", "callsign", "")]
-        for ip in ("10.0.0.1", "10.0.0.2", "10.9.9.9"):
+        evs += [("match_attr",) + tuple(ma) for ma in getattr(cfg, "match_attrs", DEFAULT_MATCH_ATTRS)]
+        for ip in getattr(cfg, "ips", DEFAULT_IPS):
             evs.append(("match_ip", ip))
         evs += [("match_uuid_unknown",), ("len",), ("all",)]
         return evs
@@ -330,9 +350,13 @@ class StorageSystem(explore.System):
         )
 
 
-def make_system(addrs, patches, addr_patches=None, inits=("empty",)):
-    cfg = type("Cfg", (), {"addrs": list(addrs), "patches": dict(patches), "addr_patches": dict(addr_patches or {})})
+def make_system(addrs, patches, addr_patches=None, inits=("empty",), **more):
+    cfg = type("Cfg", (), {"addrs": list(addrs), "patches": dict(patches), "addr_patches": dict(addr_patches or {}), **more})
     return type("StorageSystemCfg", (StorageSystem,), {"cfg": cfg, "INITS": list(inits)})
+
+
+def EDGE_SYSTEM():
+    return make_system([A, M4, V6, V6B, E0], PATCHES_EDGE, match_attrs=EDGE_MATCH_ATTRS, ips=EDGE_IPS)
 
 
 WHAT = {
@@ -373,6 +397,7 @@ def run(only=None):
     else:
         runs.append(("addr_patch_depth4", make_system([A, B], {k: PATCHES[k] for k in ("none", "callsign")}, PATCHES_ADDR), 4))
         runs.append(("all_sequences_depth3_3addr_full", make_system([A, B, C], PATCHES), 3))
+    runs.append(("address_spellings_and_field_extremes_depth3", EDGE_SYSTEM(), 4 if rep.thorough() else 3))
     for name, cls, depth in runs:
         if only and name not in only:
             continue
@@ -399,6 +424,7 @@ def replay(doc):
             "addr_patch_depth4": make_system([A, B], {k: PATCHES[k] for k in ("none", "callsign")}, PATCHES_ADDR),
             "all_sequences_depth4_3addr_full": make_system([A, B, C], PATCHES),
             "all_sequences_depth3_3addr_full": make_system([A, B, C], PATCHES),
+            "address_spellings_and_field_extremes_depth3": EDGE_SYSTEM(),
         }
         cls = cfgs[name]
         s = cls(c["init"])
